@@ -760,6 +760,14 @@ func (cc *Conn) processResponse(reqType message.Type, reqMessageID int32, w *res
 			}
 			w.Message().SetMessageID(cc.GetMessageID())
 		}
+		// this is the reply to the request: cache it like any other reply, otherwise a duplicate
+		// of the request would be handed to the handler again
+		if reqType == message.Confirmable || reqType == message.NonConfirmable {
+			err := cc.addResponseToCache(reqMessageID, w.Message())
+			if err != nil {
+				return fmt.Errorf("cannot cache response: %w", err)
+			}
+		}
 		return nil
 	case sendJustAcknowledgeMessage(reqType, w):
 		// send message to separate(confirm received) message, if response is not modified
